@@ -8,7 +8,9 @@
   The memory of a state is the byte array `Nat → Option UInt8` (property C08 ties falcon's paged memory to it).
   Every theorem is for ALL programs, states, widths and step counts; nothing is enumerated.
 -/
-import FalconProofs.C07.Exec
+import FalconProofs.C07.FStep
+import FalconProofs.C07.Succs
+import FalconProofs.C07.Example
 
 namespace Falcon.C07
 open Falcon Falcon.Sem Falcon.Drv
@@ -234,6 +236,104 @@ theorem execute_no_panic (σ : State) (op : Op) (ht : TypedOp σ op)
   | intrinsic i => simp
   | nop => simp
 
+/-- a typed operation leaves a typed state typed (what makes the premise survive any number of steps) -/
+theorem type_preservation (Γ : Ctx) (σ σ' : State) (op : Op) (s : Succ) (hs : StateTyped Γ σ)
+    (ht : TypedOpΓ Γ op) (h : OpSem σ op σ' s) : StateTyped Γ σ' := stateTyped_opSem hs ht h
+
+/-! ### one step of the driver: `Driver::step` ≡ `Step`, on programs satisfying the premise
+    (`Premise Γ P` = typed against `Γ`, distinct instruction indices per block, `GuardsOK`) -/
+
+/-- `Driver::step` makes exactly the steps of the semantics.  Under `GuardsOK` the lone edge taken without
+    evaluating its guard is harmless, and "first guard that is one" is "the guard that is one". -/
+theorem step_refines (Γ : Ctx) (P : Program) (hp : Premise Γ P) (l : Loc) (σ : State) (hs : StateTyped Γ σ)
+    (hl : LocOK P l) (d' : Loc × State) : step P (l, σ) = .ok d' ↔ Step P (l, σ) d' :=
+  ⟨step_sound hp hs hl, step_complete hp hs⟩
+
+/-- the semantics is deterministic on such programs -/
+theorem step_deterministic (Γ : Ctx) (P : Program) (hp : Premise Γ P) (l : Loc) (σ : State)
+    (hs : StateTyped Γ σ) (d₁ d₂ : Loc × State) (h₁ : Step P (l, σ) d₁) (h₂ : Step P (l, σ) d₂) : d₁ = d₂ := by
+  have e₁ := step_complete hp hs h₁
+  have e₂ := step_complete hp hs h₂
+  rw [e₁] at e₂
+  injection e₂
+
+/-- a step keeps the premise: the new state is typed, the new location is well-formed -/
+theorem step_preserves (Γ : Ctx) (P : Program) (hp : Premise Γ P) (l : Loc) (σ : State) (hs : StateTyped Γ σ)
+    (d' : Loc × State) (h : Step P (l, σ) d') : StateTyped Γ d'.2 ∧ LocOK P d'.1 := step_invariant hp hs h
+
+/-- the driver's specification column: `Sem.succs` enumerates exactly the `Step`-successors (any program) -/
+theorem succs_spec (P : Program) (d x : Loc × State) : x ∈ succs P d ↔ Step P d x := mem_succs_iff P d x
+
+/-! ### every step count -/
+
+/-- `n` calls of `Driver::step` succeed with `d'` iff `d'` is reached by `n` steps of the semantics -/
+theorem run_refines (Γ : Ctx) (P : Program) (hp : Premise Γ P) (n : Nat) (d d' : Loc × State)
+    (hs : StateTyped Γ d.2) (hl : LocOK P d.1) : run P n d = .ok d' ↔ Steps P n d d' :=
+  run_iff_steps hp n d d' hs hl
+
+/-- … and that `n`-step run is unique -/
+theorem run_unique (Γ : Ctx) (P : Program) (hp : Premise Γ P) (n : Nat) (d d₁ d₂ : Loc × State)
+    (hs : StateTyped Γ d.2) (hl : LocOK P d.1) (h₁ : Steps P n d d₁) (h₂ : Steps P n d d₂) : d₁ = d₂ := by
+  have e₁ := (run_iff_steps hp n d d₁ hs hl).2 h₁
+  have e₂ := (run_iff_steps hp n d d₂ hs hl).2 h₂
+  rw [e₁] at e₂
+  injection e₂
+
+/-- the executor stops with an error only in a configuration from which the semantics has no step:
+    it never gives up early and never invents a continuation -/
+theorem run_stops_only_when_stuck (Γ : Ctx) (P : Program) (hp : Premise Γ P) (n : Nat) (d : Loc × State)
+    (hs : StateTyped Γ d.2) (hl : LocOK P d.1) (h : ∀ d', run P n d ≠ .ok d') :
+    ∃ m d', m < n ∧ Steps P m d d' ∧ ∀ d'', ¬ Step P d' d'' := run_stops_stuck hp n d hs hl h
+
+/-- no guard holds among the out-edges (all have a value, none is one; or there is no out-edge):
+    `err:noedge`, for the end of a block and for an empty block alike -/
+theorem error_noedge (σ : State) (es : List Edge) (h2 : es.length ≠ 1)
+    (hf : ∀ e ∈ es, ∃ g c, e.cond = some g ∧ σ.evalIn g = .ok c ∧ c.val ≠ 1) :
+    chooseEdge σ es = .err .noedge := by
+  match es, h2 with
+  | [], _ => rfl
+  | [x], h => exact absurd rfl h
+  | x :: y :: zs, _ => exact firstEnabled_none hf
+
+/-! ### the link to the function-level relation `FStep` (used by C10, C12, C13, C14, C17) -/
+
+/-- every step of the semantics (hence of the driver) that is not an indirect branch stays in its function
+    and is matched by 0, 1 or 2 `FStep`s between the configurations the two locations stand for -/
+theorem step_fstep (Γ : Ctx) (P : Program) (hp : Premise Γ P) (l : Loc) (σ : State) (hs : StateTyped Γ σ)
+    (hl : LocOK P l) (d' : Loc × State) (h : step P (l, σ) = .ok d') :
+    (∃ f b k i t, AtInstr P l f b k i ∧ i.op = .branch t) ∨
+    (∃ f c c', Abs P f (l, σ) c ∧ Abs P f d' c' ∧ FRun f c c') :=
+  Step_frun hp hs (step_sound hp hs hl h)
+
+/-- conversely an `FStep` over an instruction that is not the last of its block is the driver's step -/
+theorem fstep_step (Γ : Ctx) (P : Program) (hp : Premise Γ P) (l : Loc) (σ σ' : State) (hs : StateTyped Γ σ)
+    (f : Function) (b : Block) (k : Nat) (i j : Instr) (hat : AtInstr P l f b k i)
+    (hf : FStep f ⟨b.index, k, σ⟩ ⟨b.index, k + 1, σ'⟩) (hn : b.instrs[k + 1]? = some j) :
+    step P (l, σ) = .ok (⟨f.index, .instr b.index j.index⟩, σ') :=
+  FStep_instr_step hp hs hat hf rfl rfl hn
+
+/-! ### outside the premise the model still mirrors the code: the lone guarded edge -/
+
+/-- one function, block 0 = [nop], block 1 = [nop], the only edge 0 → 1 guarded by the constant FALSE -/
+def loneBlock (n : Nat) : Block := { index := n, instrs := [{ index := 0, op := Op.nop }] }
+def loneEdge : Edge := { head := 0, tail := 1, cond := some (Expr.const ⟨1, 0⟩) }
+def loneFunction : Function :=
+  { addr := 0, index := some 0, cfg := { blocks := [loneBlock 0, loneBlock 1], edges := [loneEdge], entry := some 0 } }
+def loneEdgeProgram : Program := { functions := [loneFunction] }
+
+/-- `Driver::step` follows a lone conditional edge without evaluating its guard — here a guard that is
+    false — although the semantics has no step (DESIGN §7 row 25; excluded by the property's premise) -/
+theorem step_single_edge_unchecked :
+    ∃ (P : Program) (d d' : Loc × State), step P d = .ok d' ∧ ∀ x, ¬ Step P d x := by
+  refine ⟨loneEdgeProgram, (⟨some 0, .instr 0 0⟩, {}), (⟨some 0, .edge 0 1⟩, {}), rfl, ?_⟩
+  intro x hx
+  have := (mem_succs_iff _ _ _).2 hx
+  have hnil : succs loneEdgeProgram (⟨some 0, .instr 0 0⟩, {}) = [] := by
+    simp [succs, loneEdgeProgram, loneFunction, loneBlock, loneEdge, Program.function, Function.block, Cfg.block, positions, succsAt, opSem,
+      Cfg.edgesOut, enabled, guardTrue, value, List.zipIdx]
+  rw [hnil] at this
+  cases this
+
 /-! ### non-vacuity -/
 
 /-- a state with `a = 0x2000:32` and four mapped bytes; `TypedOp` holds of a store, a load and an assignment -/
@@ -243,5 +343,13 @@ def exState : State :=
 example : TypedOp exState (.load ⟨"b", 32, none⟩ (.bin .add (.scalar ⟨"a", 32, none⟩) (.const ⟨32, 0⟩))) := by decide
 example : TypedOp exState (.store (.scalar ⟨"a", 32, none⟩) (.const ⟨16, 0xbeef⟩)) := by decide
 example : TypedOp exState (.assign ⟨"c", 1, none⟩ (.bin .cmpeq (.scalar ⟨"a", 32, none⟩) (.const ⟨32, 7⟩))) := by decide
+
+/-- the premise of `step_refines` / `run_refines` is met by a program with a two-way partition (`f` / `f == 0`),
+    a lone unconditional edge, an empty block and an assignment — for ALL typed states — and by a start state -/
+example : Premise exΓ exProg := exProg_premise
+example : StateTyped exΓ exStart := exStart_typed
+example : LocOK exProg ⟨some 0, .instr 0 0⟩ := trivial
+/-- and the driver really walks it: instruction, guarded edge (first guard is one), next block -/
+example : run exProg 3 (⟨some 0, .instr 0 0⟩, exStart) = .ok (⟨some 0, .edge 1 2⟩, exStart.set "g" ⟨1, 1⟩) := rfl
 
 end Falcon.C07
